@@ -52,6 +52,16 @@ def entries_of(a, common):
     return out
 
 
+def strided(entries):
+    """The same entries held in non-contiguous row-id arrays (every other element of a bigger one)."""
+    out = {}
+    for k, v in entries.items():
+        big = numpy.full(len(v) * 2, 0xFFFFFFFF, dtype=U32)
+        big[::2] = v
+        out[k] = big[::2]
+    return out
+
+
 def most_frequent_ok(a, common):
     """True iff `common` occurs at least as often in a as every other value (empty: exempt)."""
     a = numpy.asarray(a)
